@@ -177,8 +177,9 @@ static inline int vp_mutex_timedlock(char* m, char* ts) { return vp_mutex_clockl
 static inline int vp_rw_can_read(char* l) { return ((int*)l)[0] == 0; }
 static inline int vp_rw_can_write(char* l) { return ((int*)l)[0] == 0 && ((int*)l)[1] == 0; }
 static inline int32_t vp_rw_state_of(char* l) { return (((int*)l)[0] << 8) | ((int*)l)[1]; }   /* (writer id + 1) << 8 | reader mask */
+/* bytes 8.. = per-thread count of shared holds (a thread may hold several shared locks: pthread allows it) */
 static inline int vp_rw_rdlock(char* l) {
-  VP_CHECK((((int*)l)[1] & (1 << vp_cur)) == 0, "rwlock: recursive read lock");
+  ((uint8_t*)l)[8 + vp_cur]++;
   ((int*)l)[1] |= (1 << vp_cur); vp_hb_lock(l); return 0;
 }
 static inline int vp_rw_wrlock(char* l) { ((int*)l)[0] = vp_cur + 1; vp_hb_lock(l); return 0; }
@@ -193,7 +194,8 @@ static inline int vp_rw_unlock(char* l) {
   if (((int*)l)[0] == vp_cur + 1) ((int*)l)[0] = 0;
   else {
     VP_CHECK((((int*)l)[1] & (1 << vp_cur)) != 0, "rwlock: unlock by a thread that holds neither side");
-    ((int*)l)[1] &= ~(1 << vp_cur);
+    if (((uint8_t*)l)[8 + vp_cur] > 0) ((uint8_t*)l)[8 + vp_cur]--;
+    if (((uint8_t*)l)[8 + vp_cur] == 0) ((int*)l)[1] &= ~(1 << vp_cur);
   }
   return 0;
 }
